@@ -3,6 +3,7 @@ package exec
 import (
 	"fmt"
 	"go/token"
+	"go/types"
 	"os"
 	"path/filepath"
 	"runtime"
@@ -65,6 +66,11 @@ func Load(lc LoadConfig) (*Shared, error) {
 	}
 	sh.errorT = typesPointer(we.Type())
 	sh.errorIface = universeError()
+	if yp := sh.Pkgs["gopkg.in/yaml.v3"]; yp != nil {
+		if n := yp.Type("Node"); n != nil {
+			sh.yamlNodeT, _ = n.Type().Underlying().(*types.Struct)
+		}
+	}
 	if jp := sh.Pkgs["encoding/json"]; jp != nil {
 		if n := jp.Type("Number"); n != nil {
 			sh.jsonNumberT = n.Type()
